@@ -280,9 +280,9 @@ theorem nq_handleInactivity {N : Nat} {s : State} (h : NQ N s) (now : Nat) : NQ 
 theorem nq_handleAckTimer {N : Nat} {s : State} (h : NQ N s) (now : Nat) (b : Bool) : NQ N (handleAckTimer s now b) := by
   inv_auto nq_frame 4 []
 
-theorem nq_handleTimeout {N : Nat} {s : State} (h : NQ N s) (now : Nat) : NQ N (handleTimeout s now) := by
+theorem nq_handleTimeoutMain {N : Nat} {s : State} (h : NQ N s) (now : Nat) : NQ N (handleTimeoutMain s now) := by
   have h1 : NQ N (handleInactivity (handleDelayed s now) now).1 := nq_handleInactivity (nq_handleDelayed h now) now
-  simp only [handleTimeout]
+  simp only [handleTimeoutMain]
   repeat' split
   all_goals first
     | exact h
@@ -290,6 +290,12 @@ theorem nq_handleTimeout {N : Nat} {s : State} (h : NQ N s) (now : Nat) : NQ N (
     | exact nq_setAll h1 rfl (getAllNaks_congr rfl rfl rfl) rfl rfl
     | (apply nq_handleAckTimer; inv_auto nq_frame 4 [])
     | inv_auto nq_frame 4 []
+
+
+theorem nq_handleTimeout {N : Nat} {s : State} (h : NQ N s) (now : Nat) : NQ N (handleTimeout s now) := by
+  simp only [handleTimeout, unackFinishedLimit]
+  repeat' split
+  all_goals inv_auto nq_frame 4 [nq_handleTimeoutMain]
 
 /-! ### the NAK PDU -/
 
@@ -674,7 +680,7 @@ theorem dq_processPdu {s : State} (h : DQ s) (p : Pdu) (now : Nat) (hp : Plain p
         | (rw [checkFinished_noEof (by simp only [fileSize_storeMetadata]; exact h0.noEof)]; inv_auto dq_frame 7 [])
         | inv_auto dq_frame 7 [dq_shutdown])
 
-theorem dq_handleTimeout {s : State} (h : DQ s) (now : Nat) : DQ (handleTimeout s now) := by
+theorem dq_handleTimeoutMain {s : State} (h : DQ s) (now : Nat) : DQ (handleTimeoutMain s now) := by
   have hi : DQ (handleInactivity s now).1 := by
     simp only [handleInactivity]
     repeat' split
@@ -698,7 +704,7 @@ theorem dq_handleTimeout {s : State} (h : DQ s) (now : Nat) : DQ (handleTimeout 
     repeat' split
     all_goals inv_auto dq_frame 7 [dq_abandon, dq_handleFault, dq_shutdown]
   dsimp only at hack2
-  simp only [handleTimeout, handleDelayed_nil h.delayed, idle_timeoutOccurred hidle]
+  simp only [handleTimeoutMain, handleDelayed_nil h.delayed, idle_timeoutOccurred hidle]
   repeat' split
   all_goals first
     | exact h
@@ -706,6 +712,12 @@ theorem dq_handleTimeout {s : State} (h : DQ s) (now : Nat) : DQ (handleTimeout 
     | contradiction
     | exact hack2 _
     | inv_auto dq_frame 7 []
+
+
+theorem dq_handleTimeout {s : State} (h : DQ s) (now : Nat) : DQ (handleTimeout s now) := by
+  simp only [handleTimeout, unackFinishedLimit]
+  repeat' split
+  all_goals inv_auto dq_frame 7 [dq_handleTimeoutMain, dq_shutdown]
 
 end Cfdp.Recv
 
